@@ -318,9 +318,10 @@ CHECKS["C08"] = dict(
         dict(name="H08c-program", entry="backend/posix.VfMultipartProgram", reach=["aborted", "completed"], **_FS),
         dict(name="H08a-copyrange", pkgs=["./backend"], entry="backend.VfCopySourceRange", native=True, reach=["accepted", "refused"]),
         dict(name="H08d-part-no-object", entry="backend/posix.VfPartIsNoObject", reach=["probed"], **_FS),
+        dict(name="H08e-uploadpartcopy", entry="backend/posix.VfUploadPartCopy", reach=["copied", "refused"], **_FS),
     ],
     assumptions=["file-system model; MD5/SHA-256 uninterpreted (real function on concrete inputs)", "bulk content of big parts is abstract (size only)"],
-    outside=["UploadPartCopy data path", "ListMultipartUploads markers", "checksum variants", "more than three listed parts / two uploads"],
+    outside=["UploadPartCopy from a versioned source / with checksum algorithms", "ListMultipartUploads marker semantics", "checksum variants", "more than three listed parts / two uploads"],
 )
 
 CHECKS["C09"] = dict(
